@@ -107,6 +107,18 @@ def check(tier, replay=None):
             inp = gen.gen_input(rng.fork(f"{pid}i{j}"), p)
             inst = f"{pid}_{j}"
             cases.append(engcheck.Case(pid, inst, history(inst, pid, inp), {"inp": inp}))
+    # re-use of a program value: run(); rows REMOVED from one or two relation vectors (a cleared derived relation, retracted input facts); run() again - the second
+    # run() is a run over the facts then present, every index being rebuilt from the vectors.  The Lean side replays the same history (on odd cases over the
+    # physical-index model); the oracle is the least model of the rows present before the second run
+    for pi, (pid, p) in enumerate(list(progs.items())):
+        if pid.startswith("c"): continue
+        for j in range(2 if tier == "quick" else 6):
+            g = rng.fork(f"reuse{pid}_{j}")
+            inp = gen.gen_input(g.fork("i"), p) if not pid.startswith("ll") else next(c.meta["inp"] for c in cases if c.pid == pid)
+            heads = sorted({h[0] for rl in p["rules"] for h in rl["heads"]})
+            ops, inp2 = engcheck.reuse_history(g, p, f"{pid}_u{j}", pid, inp, run2="runp" if (pi + j) % 2 else "run",  # (scc_iters accumulates over the runs of a value: not compared here)
+                                               force_clear=g.choice(heads) if heads and j % 2 == 0 else None)
+            cases.append(engcheck.Case(pid, f"{pid}_u{j}", ops, {"inp": inp, "phases": [inp, inp2], "kind": "reuse"}))
     res = engcheck.run_cases(r, "c01", progs, cases, model=proof.ok or os.path.exists(core.lean_driver()))
     if res is None: return r.finish(TRUSTED)
     outs, (pimpl, pmod) = res
@@ -116,10 +128,14 @@ def check(tier, replay=None):
     for c, (io, mo) in zip(cases, outs):
         p = progs[c.pid]
         spec = engcheck.spec_sets(p, c.meta["inp"])
-        def oracle(_l, out, spec=spec, p=p, c=c):
+        specs = [engcheck.spec_sets(p, i) for i in c.meta.get("phases", [])]
+        def oracle(_l, out, spec0=spec, specs=specs, p=p, c=c):
             lines = out.split("\n")
+            nd = 0
             for k, o in enumerate(c.ops):
                 if not o.startswith("eng dump"): continue
+                spec = specs[nd] if specs else spec0
+                nd += 1
                 dump = lines[k] if k < len(lines) else "no-output"
                 if dump.startswith("panic") or not dump.startswith("r0:"): return f"run/dump failed: {dump}"
                 sets, mult = engcheck.dump_sets(dump)
